@@ -73,3 +73,18 @@ Theorem C03_no_side_effects_on_other_validators : forall g bs b w' out,
                ((exists v, vals (stk (w_chain w')) !! id = Some v /\ v_cons v = k) \/
                 (exists v, vals (stk (w_chain w)) !! id = Some v /\ v_cons v = k)).
 Proof. exact history_updates_only_changes. Qed.
+
+(* a removed validator holds no tokens (the removal burns them all), and a validator without tokens worth a unit of power has
+   no seat in any reachable state, whatever max_validators is: it stays out until the admin gives it tokens again *)
+Theorem C03_no_tokens_no_seat : forall g bs id v,
+  wf_genesis g ->
+  let w := run_world (init_world g) bs in
+  w_halted w = None -> vals (stk (w_chain w)) !! id = Some v -> v_tokens v < 1000000 ->
+  last_pow (stk (w_chain w)) !! id = None.
+Proof.
+  intros g bs id v Hg w Hh Hv Ht. destruct (last_pow (stk (w_chain w)) !! id) as [q|] eqn:El; [|reflexivity]. exfalso.
+  destruct (reachable_members_ok g bs Hg Hh id q El) as (v' & Hv' & _ & Hq & Hpos). unfold w in Hv. rewrite Hv in Hv'. inversion Hv'; subst v'.
+  subst q. unfold v_power, tokens_to_power, power_reduction in Hpos.
+  assert (v_tokens v / 1000000 <= 0); [|lia]. destruct (Z.le_gt_cases 0 (v_tokens v)); [rewrite Z.div_small by lia; lia|].
+  apply Z.div_le_upper_bound; lia.
+Qed.
